@@ -103,7 +103,7 @@ class Lab:
         if lld:
             cmd = ["ld.lld", "-m", "elf_i386", "--no-check-sections", "-T", sp, "-o", out] + list(extra) + list(inputs)
         else:
-            cmd = ["ld", "-m", "elf_i386", "-T", sp, "-o", out] + (["-r"] if relocatable else []) + list(extra) + list(inputs)
+            cmd = ["ld", "-m", "elf_i386", "-T", sp, "-o", out] + (["-r"] if relocatable else (["--no-check-sections"] if getattr(self, "no_check_sections", False) else [])) + list(extra) + list(inputs)
         rc, so, se = sh(cmd, self.dir, timeout=120)
         return rc, so + se
 
@@ -117,6 +117,16 @@ class Lab:
             elif len(parts) == 2:
                 syms.setdefault(parts[1], (None, parts[0]))
         return syms
+
+    def symbol_secs(self, elf="out.elf"):
+        """symbol name -> name of the output section that holds it (objdump -t)"""
+        rc, out, err = sh(["objdump", "-t", elf], self.dir)
+        res = {}
+        for line in out.splitlines():
+            m = re.match(r"^([0-9a-f]+)\s.{7}\s(\S+)\t([0-9a-f]+)\s+(\S+)$", line)
+            if m:
+                res[m.group(4)] = m.group(2)
+        return res
 
     def sections(self, elf="out.elf"):
         rc, out, err = sh(["readelf", "-SW", elf], self.dir)
